@@ -295,3 +295,26 @@ func poison(fam string, full bool) {
 		reqs[poisonCount%len(reqs)].call()
 	}
 }
+
+// decorate returns variants of a content with prefixes/suffixes that "helpful" input
+// normalisation tends to strip or unwrap: byte order marks, line ends, blanks, NULs,
+// quotes, the symbology's own delimiters, invisible Unicode characters.
+func decorate(x []byte) [][]byte {
+	cat := func(parts ...string) []byte {
+		var b []byte
+		for _, p := range parts {
+			b = append(b, p...)
+		}
+		return b
+	}
+	s := string(x)
+	return [][]byte{
+		cat("\ufeff", s), cat(s, "\ufeff"), cat("\ufeff\ufeff", s), cat("\xef\xbb", s), cat("\xff\xfe", s), cat("\xfe\xff", s),
+		cat(s, "\n"), cat(s, "\r\n"), cat(s, "\r"), cat("\n", s), cat(s, "\n\n"), cat(s, "\r\n\r\n\r"),
+		cat(" ", s), cat(s, " "), cat("  ", s, "  "), cat("\t", s), cat(s, "\t"),
+		cat("*", s, "*"), cat("\"", s, "\""), cat("'", s, "'"), cat("(", s, ")"), cat("[", s, "]"), cat("<", s, ">"),
+		cat("\x00", s), cat(s, "\x00"), cat(s, "\x1a"), cat(s, "\x7f"),
+		cat("\u200b", s), cat(s, "\u200b"), cat("\u00a0", s), cat(s, "\u00a0"), cat("\u2028", s), cat("\u200e", s), cat(s, "\u0301"),
+		cat("+", s), cat("-", s), cat("0", s), cat(s, "0"), cat("00", s),
+	}
+}
